@@ -60,5 +60,48 @@ Definition matches (p : pat_class) (comps : list pystr) : bool :=
   | POther => false
   end.
 
+(* gitignore semantics: the LAST pattern that matches decides; a pattern starting with "!" re-includes *)
+Definition excluded_step (comps : list pystr) (acc : bool) (line : pystr) : bool :=
+  match line with
+  | 33 :: rest => if matches (classify rest) comps then false else acc
+  | _ => if matches (classify line) comps then true else acc
+  end.
 Definition excluded (patterns : list pystr) (comps : list pystr) : bool :=
-  existsb (fun line => matches (classify line) comps) patterns.
+  fold_left (excluded_step comps) patterns false.
+
+Definition negated (line : pystr) : bool := match line with 33 :: _ => true | _ => false end.
+(* without negated patterns: some pattern matches *)
+Lemma excluded_step_true comps : forall ps, forallb (fun l => negb (negated l)) ps = true ->
+  fold_left (excluded_step comps) ps true = true.
+Proof.
+  induction ps as [|l ps IH]; cbn [fold_left forallb]; intros H; [reflexivity|].
+  apply andb_prop in H as [Hl Hps]. unfold excluded_step at 2. destruct l as [|c r]; cbn [negated] in Hl.
+  - destruct (matches (classify []) comps); apply IH; exact Hps.
+  - destruct (Z.eqb_spec c 33) as [->|Hc]; [discriminate Hl|].
+    assert (E : excluded_step comps true (c :: r) = true).
+    { unfold excluded_step. destruct c; try (destruct (matches _ comps); reflexivity).
+      repeat (destruct p; try (destruct (matches _ comps); reflexivity)). exfalso. apply Hc. reflexivity. }
+    fold (excluded_step comps true (c :: r)). rewrite E. apply IH. exact Hps.
+Qed.
+Theorem excluded_without_negation patterns comps :
+  forallb (fun l => negb (negated l)) patterns = true ->
+  excluded patterns comps = existsb (fun line => matches (classify line) comps) patterns.
+Proof.
+  unfold excluded. induction patterns as [|l ps IH]; cbn [fold_left forallb existsb]; intros H; [reflexivity|].
+  apply andb_prop in H as [Hl Hps].
+  assert (E : excluded_step comps false l = matches (classify l) comps).
+  { unfold excluded_step. destruct l as [|c r]; [destruct (matches _ comps); reflexivity|].
+    destruct c; try (destruct (matches _ comps); reflexivity).
+    repeat (destruct p; try (destruct (matches _ comps); reflexivity)). discriminate Hl. }
+  rewrite E. destruct (matches (classify l) comps); cbn [orb].
+  - apply excluded_step_true. exact Hps.
+  - apply IH. exact Hps.
+Qed.
+
+(* the last matching pattern decides *)
+Theorem excluded_last_decides patterns line comps :
+  excluded (patterns ++ [line]) comps = excluded_step comps (excluded patterns comps) line.
+Proof. unfold excluded. rewrite fold_left_app. reflexivity. Qed.
+Corollary excluded_reincluded patterns p comps :
+  matches (classify p) comps = true -> excluded (patterns ++ [33 :: p]) comps = false.
+Proof. intros H. rewrite excluded_last_decides. unfold excluded_step. rewrite H. reflexivity. Qed.
